@@ -31,9 +31,12 @@ def obligations(ctx):
     obs = ctx.contract_obligations("C01")
     # every TheoryPy construction in the package is one of the two known builders
     sites = []
+    import ast as _ast
+    from ..frontend import dotted as _dotted
     for q, fi in ctx.program.functions.items():
-        t = T.canonical(T.FuncLower(ctx.program, fi).term())
-        n = sum(1 for x in T.walk(t) if x[0] == 'call' and x[1] == T.G('puan_rspy.TheoryPy'))
+        # syntactic construction sites (helpers inlined by the IR do not count as sites of their callers)
+        n = sum(1 for x in _ast.walk(fi.node) if isinstance(x, _ast.Call) and _dotted(x.func)
+                and ctx.program.qualify(fi.module, _dotted(x.func)) == 'puan_rspy.TheoryPy')
         if n:
             sites.append((q, n))
     for q, n in sites:
@@ -53,6 +56,9 @@ def obligations(ctx):
         obs.append(Ob("E8.builders", "E8.sibling", ctx.loc(BUILDERS[1]), "violation",
                       "the two TheoryPy builders disagree: " + "; ".join(f"{T.show(a)[:120]} vs {T.show(b)[:120]}" for _, a, b in d[:3]),
                       key="E8.sibling:theory-builders"))
+    elif len(flat) == 1:
+        obs.append(Ob("E8.builders", "E8.sibling", ctx.loc(BUILDERS[1]), "ok",
+                      "a single TheoryPy construction is shared by both entry points (agreement by construction)"))
     else:
-        obs.append(Ob("E8.builders", "E8.sibling", ctx.loc(BUILDERS[1]), "inconclusive", "fewer than two builders found"))
+        obs.append(Ob("E8.builders", "E8.sibling", ctx.loc(BUILDERS[1]), "inconclusive", "no TheoryPy construction found"))
     return obs
